@@ -865,7 +865,7 @@ func (h *c03Case) lateQuotaCreate(t *rapid.T, l *c03Late) {
 	var parent *c03Quota
 	dims := h.baseDims
 	var budget c03Res
-	if l.Parent != "" {
+	if l.Parent != "" && h.quotas[l.Parent].IsParent { // (the planned parent may have been turned into a leaf meanwhile)
 		parent = h.quotas[l.Parent]
 		dims = parent.Dims
 		budget = c03Res{}
@@ -992,6 +992,160 @@ func (h *c03Case) finishBinding(t *rapid.T, pd *c03Pod) {
 		// (and its usage) out there and adds it, bound, to the new quota
 		h.moveToOwnQuota(pd, "pod update in the window")
 	}
+}
+
+// deliver the update event for a quota whose model fields (labels) were just changed
+func (h *c03Case) pushQuota(q *c03Quota, old *v1alpha1.ElasticQuota) {
+	q.RV++
+	nw := c03QuotaObj(q)
+	_ = h.p.quotaInformer.GetIndexer().Update(nw)
+	h.p.OnQuotaUpdate(old, nw)
+}
+
+func (h *c03Case) subtreeHolds(q *c03Quota) bool {
+	for _, v := range h.modelUsed(q, false) {
+		if v > 0 {
+			return true
+		}
+	}
+	return false
+}
+
+// flip the allow-lent-resource label of any quota: a "meta" change, the manager rebuilds the whole tree from the
+// leaves' saved request / used (resetQuotaNoLock)
+func (h *c03Case) quotaToggleAllowLent(t *rapid.T) {
+	q := h.quotas[rapid.SampledFrom(h.order).Draw(t, "quota")]
+	old := c03QuotaObj(q)
+	q.AllowLent = !q.AllowLent
+	h.pushQuota(q, old)
+	h.c.Class("quota-toggle-allow-lent")
+	h.logf("quotaToggleAllowLent %s -> lent=%v", q.Name, q.AllowLent)
+}
+
+// flip the is-parent label where the webhook lets it (checkIsParentChange): a parent without children may become a
+// leaf, a leaf may become a parent only while no pod at all names it (label, its namespace, its annotated namespaces).
+// Also a meta change: full rebuild.
+func (h *c03Case) quotaToggleIsParent(t *rapid.T) bool {
+	var cand []string
+	for _, name := range h.order {
+		q := h.quotas[name]
+		if q.IsParent {
+			if len(q.Children) == 0 {
+				cand = append(cand, name)
+			}
+			continue
+		}
+		named := false
+		for _, n := range h.podNames() {
+			named = named || h.pods[n].Quota == name || h.pods[n].Label == name
+		}
+		if !named && len(h.leaves) > 1 { // (the harness keeps at least one leaf to send pods to)
+			cand = append(cand, name)
+		}
+	}
+	if len(cand) == 0 {
+		return false
+	}
+	q := h.quotas[rapid.SampledFrom(cand).Draw(t, "quota")]
+	old := c03QuotaObj(q)
+	q.IsParent = !q.IsParent
+	if q.IsParent {
+		for i, l := range h.leaves {
+			if l == q.Name {
+				h.leaves = append(h.leaves[:i:i], h.leaves[i+1:]...)
+				break
+			}
+		}
+	} else {
+		h.leaves = append(h.leaves, q.Name)
+	}
+	h.pushQuota(q, old)
+	h.c.Class("quota-toggle-is-parent")
+	h.logf("quotaToggleIsParent %s -> isParent=%v", q.Name, q.IsParent)
+	return true
+}
+
+// move a quota (with its subtree and everything the subtree holds) below another parent, where the webhook lets it:
+// the new parent is the root or an existing is-parent quota outside the moved subtree (no cycle) declaring the same
+// dimensions, and the moved quota's min still fits into what the new parent's min has left
+func (h *c03Case) quotaReparent(t *rapid.T) bool {
+	type move struct{ q, to string }
+	var cand, loaded []move
+	for _, name := range h.order {
+		q := h.quotas[name]
+		inSubtree := map[string]bool{name: true}
+		for changed := true; changed; {
+			changed = false
+			for _, n := range h.order {
+				if x := h.quotas[n]; x.Parent != "" && inSubtree[x.Parent] && !inSubtree[n] {
+					inSubtree[n], changed = true, true
+				}
+			}
+		}
+		holds := h.subtreeHolds(q)
+		add := func(to string) {
+			cand = append(cand, move{name, to})
+			if holds {
+				loaded = append(loaded, move{name, to})
+			}
+		}
+		if q.Parent != "" {
+			add("") // below the root: nothing to check for a leaf, only the children's sums (unchanged) for a parent
+		}
+		for _, pn := range h.order {
+			np := h.quotas[pn]
+			if !np.IsParent || inSubtree[pn] || pn == q.Parent || fmt.Sprint(np.Dims) != fmt.Sprint(q.Dims) {
+				continue
+			}
+			fits := true
+			for _, d := range q.Dims {
+				room := np.Min[d]
+				for _, ch := range np.Children {
+					room -= h.quotas[ch].Min[d]
+				}
+				fits = fits && q.Min[d] <= room
+			}
+			if fits {
+				add(pn)
+			}
+		}
+	}
+	if len(cand) == 0 {
+		return false
+	}
+	if len(loaded) > 0 && rapid.IntRange(0, 3).Draw(t, "moveLoaded") > 0 {
+		cand = loaded // mostly quotas that hold reserved / running pods: that is what has to move along
+	}
+	m := cand[rapid.IntRange(0, len(cand)-1).Draw(t, "move")]
+	q := h.quotas[m.q]
+	old := c03QuotaObj(q)
+	holds := h.subtreeHolds(q)
+	if q.Parent != "" {
+		op := h.quotas[q.Parent]
+		for i, ch := range op.Children {
+			if ch == q.Name {
+				op.Children = append(op.Children[:i:i], op.Children[i+1:]...)
+				break
+			}
+		}
+	}
+	from := q.Parent
+	q.Parent = m.to
+	if m.to != "" {
+		np := h.quotas[m.to]
+		np.Children = append(np.Children, q.Name)
+	}
+	if holds {
+		// the new ancestors take over usage that never passed their admission check
+		for _, a := range h.chain(q) {
+			a.Imported = true
+		}
+		h.c.Class("quota-reparent-with-assigned-pods")
+	}
+	h.pushQuota(q, old)
+	h.c.Class("quota-reparent")
+	h.logf("quotaReparent %s: parent %q -> %q (subtree holds %s)", q.Name, from, m.to, c03Str(h.modelUsed(q, false)))
+	return true
 }
 
 func (h *c03Case) quotaUpdate(t *rapid.T) {
@@ -1299,7 +1453,7 @@ func (h *c03Case) invariant(t *rapid.T) {
 // ---------------------------------------------------------------- the state machine
 
 // rapid's Repeat decides "one more action?" with a coin whose bias depends on -rapid.steps, so a recorded (shrunk)
-// fail file only replays under the value it was recorded with. The registry runs this property with steps=60; when
+// fail file only replays under the value it was recorded with. The registry runs this property with steps=70; when
 // the flag is not given at all (the driver's --replay of a .fail file and its regress jobs do not pass it) pin it to
 // that value instead of rapid's default of 30, otherwise such a replay silently passes.
 func c03PinSteps() {
@@ -1310,7 +1464,7 @@ func c03PinSteps() {
 		}
 	})
 	if !explicit {
-		_ = flag.Set("rapid.steps", "60")
+		_ = flag.Set("rapid.steps", "70")
 	}
 }
 
@@ -1463,6 +1617,21 @@ func c03Run(t *testing.T, unit string, rtOn, parOn bool) {
 			},
 			"migrate":  doMigrate,
 			"migrate2": doMigrate,
+			"quotaToggleAllowLent": func(t *rapid.T) {
+				if !h.dead {
+					h.quotaToggleAllowLent(t)
+				}
+			},
+			"quotaToggleIsParent": func(t *rapid.T) {
+				if !h.dead && !h.quotaToggleIsParent(t) {
+					t.Skip("no quota may change is-parent")
+				}
+			},
+			"quotaReparent": func(t *rapid.T) {
+				if !h.dead && !h.quotaReparent(t) {
+					t.Skip("no valid move")
+				}
+			},
 			"quotaUpdate": func(t *rapid.T) {
 				if !h.dead {
 					h.quotaUpdate(t)
